@@ -194,6 +194,7 @@ CONSTANTS
   QCap = 8
   TaskPerWrite = FALSE
   BudgetBug = FALSE
+  AcceptMode = "%s"
 INVARIANTS StreamInv RecvBound NoDrop Complete
 CHECK_DEADLOCK FALSE
 """
@@ -202,7 +203,9 @@ CHECK_DEADLOCK FALSE
 def run_c02(tier, seed, out):
     log("[C02] model checking SockPipe.tla (write hand-off, re-chunking, accept backlog, recv(n) with stored remainder)")
     for w in ("W3", "W2"):
-        model(out, "MC_SockPipe.tla", SOCK_CFG % w, "sockpipe-" + w, workers=8, timeout=600)
+        # accept() as one step (current_thread runtime) and as two critical sections with deliveries in between (multi_thread)
+        for mode in ("atomic", "guarded"):
+            model(out, "MC_SockPipe.tla", SOCK_CFG % (w, mode), "sockpipe-%s-%s" % (w, mode), workers=8, timeout=600)
     log("[C02] complete stack between socket applications, current_thread runtime with virtual time")
     drive_validate_resumable(out, "C02", HV_CORE, "sock-drive", "TraceSock", 300 if tier == "quick" else 4000, seed, "socket scenarios (current_thread)")
     log("[C02] the same scenarios on multi_thread runtimes (real time)")
@@ -213,6 +216,14 @@ def run_c02(tier, seed, out):
         hv_resumable(HV_CORE, args, n, timeout=1800)
         chunked_validate(out, "C02", "TraceSock", tp, args + ["--runs", str(n)], 60000)
         log("  multi_thread with %d workers: %d runs validated" % (w, n))
+    log("[C02] accept() against deliveries made from another thread (SockPipe AcceptTake / AcceptDrain on the real SocketAPI)")
+    for w in (2, 8):
+        tp = os.path.join(workdir("fn-C02"), "sockrace-mt%d.ndjson" % w)
+        args = ["sockrace-drive", "--workers", str(w), "--conns", "1500" if tier == "quick" else "8000", "--msgs", "250", "--out", tp]
+        hv_resumable(HV_CORE, args, 2, timeout=900)
+        chunked_validate(out, "C02", "TraceSock", tp, args + ["--runs", "2"], 60000)
+        n = sum(1 for l in open(tp) if '"ev":"rconn"' in l)
+        log("  %d workers: %d accepts with a concurrent producer judged" % (w, n))
     # known finding K1: the bounded socket queue drops stream bytes when the reader is late
     tp = os.path.join(workdir("fn-C02"), "sock-backlog.ndjson")
     args = ["sock-drive", "--seed", str(seed), "--backlog", "--out", tp]
